@@ -300,6 +300,19 @@ fn main() {
             }
         }
     }
+    // the hardest inputs of each function on the unchanged tree (inputs/c15_hard_<f>.bin, sorted u32 LE): the inputs whose
+    // result is exactly as far from the correctly rounded value as the bound allows, ranked by their real error, from a
+    // complete 2^32 sweep. A small perturbation of a kernel coefficient pushes some of them over the bound first.
+    for u in unaries() {
+        if let Ok(bytes) = std::fs::read(format!("{}/inputs/c15_hard_{}.bin", cfg.verif_dir, u.name)) {
+            let l: Vec<u32> = bytes.chunks_exact(4).map(|c| u32::from_le_bytes([c[0], c[1], c[2], c[3]])).collect();
+            if !l.is_empty() {
+                let (r2, a2) = (res.clone(), amb.clone());
+                let n = l.len();
+                cells.push(CellDef::new("C15", format!("P32E2/{}#atbound", u.name), Space::list32(l, format!("{n} inputs at which the unchanged implementation is exactly at its bound (complete-sweep census: the largest real errors + an even spread)")), move |k| un_case(&r2, &u, k, &a2)));
+            }
+        }
+    }
     // binary functions
     struct Bi {
         name: &'static str,
